@@ -10,10 +10,12 @@ CONSTANTS
   MaxFaults = 1
   MaxRestarts = 1
   MaxProbes = 0
+  MaxNoops = 2
   WithSettle = TRUE
   PauseAtomic = FALSE
   StartRollback = FALSE
   EntityGC = FALSE
   PollerExits = FALSE
   SharedKept = FALSE
+  JoinedStopped = FALSE
   BarrierExits = TRUE
